@@ -412,6 +412,21 @@ class DiscriminatedUnionUnpackerBuilder(AbstractUnpackerBuilder):
                     f"raise MissingDiscriminatorError({discriminator.field!r})"
                     " from None"
                 )
+            with lines.indent("except TypeError:"):
+                lines.append(
+                    "raise ValueError('Argument for "
+                    f"{type_name(spec.origin_type)}.{variant_method_name} "
+                    "method should be a dict instance') from None"
+                )
+            # an unhashable tag can't be a key of the variants map
+            with lines.indent("try:"):
+                lines.append("hash(discriminator)")
+            with lines.indent("except TypeError:"):
+                lines.append(
+                    "raise SuitableVariantNotFoundError("
+                    f"{variants_type_expr}, {discriminator.field!r}, "
+                    "discriminator) from None"
+                )
             with lines.indent("try:"):
                 if spec.builder.is_nailed:
                     lines.append(f"return {chosen_cls}.{variant_method_call}")
